@@ -79,6 +79,18 @@ pub fn sort_clause(ws: &[u32]) -> Result<(), String> {
 pub fn run(run: &mut Run) -> PResult {
     run.rule = "all 52 x 52 pairs of deck cards for the numeric order; sorting: every ordered tuple of sizes 2..7 over an 8-word alphabet {blank, a low card, a high card, a flagged card, 0xFFFFFFFF, 1, 0x80000000, a card with its lowest bit flipped} (8^2..8^7) and proptest arrays of arbitrary u32 words with forced duplicates, sizes 2..7: output = the input multiset in non-increasing order (both directions), sort() leaves the original untouched, sort_in_place agrees, idempotent. Non-trivial = inputs with a duplicate word or a non-card word; distinct by 64-bit hash of the array".into();
     super::regress::replay_dir(run, "C11", check_case)?;
+    {
+        let a = card::DECK;
+        let sym: [u32; 6] = [0, a[51], a[0] | card::QUADS, u32::MAX, 1, a[20]];
+        let mut items: Vec<Vec<u32>> = Vec::new();
+        for size in 2..=7usize {
+            for idx in (0..6usize.pow(size as u32)).step_by(if size > 4 { 37 } else { 1 }) {
+                let mut x = idx;
+                items.push((0..size).map(|_| { let w = sym[x % 6]; x /= 6; w }).collect());
+            }
+        }
+        disturbance_pass(run, &items, &|ws| sort_clause(ws), &|ws| ("C11.sort".into(), hand_json(ws), card::render_hand(ws)))?;
+    }
     let deck = ckc_rs::deck::POKER_DECK.arr();
     let mut n = 0u64;
     for a in deck {
@@ -165,6 +177,9 @@ pub fn run(run: &mut Run) -> PResult {
 }
 
 pub fn check_case(clause: &str, case: &Value) -> Result<(), String> {
+    if clause.ends_with(".after_disturbance") {
+        return replay_after_disturbance(case, check_case);
+    }
     match clause {
         "C11.order" => order_clause(engine::parse_word(&case["a"])?, engine::parse_word(&case["b"])?),
         _ => sort_clause(&engine::parse_words(&case["words"])?),
